@@ -150,20 +150,80 @@ Sem(top, m) ==
 FAll  == [c |-> "all"]
 FNone == [c |-> "none"]
 
-IsStarPat(p) == p.k = "pat" /\ p.form = "bare" /\ p.conn.k = "any" /\ p.obj.k = "any"
+\* "No restriction" and "nothing" as far as they are evident from the shape of a
+\* tree alone (the tool shows such a tree as `*` resp. `!`, and C12's rule "a
+\* matcher given while the current one is `*` or `!` replaces it" refers to
+\* that).  K* return "all", "none" or "mixed"; "mixed" claims nothing.
+KList(ks_pos, ks_neg) ==      \* ks_*: sequences of "all"/"none"/"mixed"
+  LET anyPosAll == Len(ks_pos) = 0 \/ \E i \in 1..Len(ks_pos) : ks_pos[i] = "all"
+      allPosNone == Len(ks_pos) > 0 /\ \A i \in 1..Len(ks_pos) : ks_pos[i] = "none"
+      negLeft == \E i \in 1..Len(ks_neg) : ks_neg[i] # "none"
+  IN IF \E i \in 1..Len(ks_neg) : ks_neg[i] = "all" THEN "none"
+     ELSE IF allPosNone THEN "none"
+     ELSE IF anyPosAll /\ ~negLeft THEN "all"
+     ELSE "mixed"
+
+RECURSIVE KText(_)
+KText(t) ==
+  CASE t.k = "any" -> "all"
+    [] t.k = "w" -> IF t.p = <<"*">> THEN "all" ELSE "mixed"
+    [] t.k = "list" -> KList([i \in 1..Len(t.pos) |-> KText(t.pos[i])], [i \in 1..Len(t.neg) |-> KText(t.neg[i])])
+
+RECURSIVE KObj(_)
+KObj(o) ==
+  CASE o.k = "any" -> "all"
+    [] o.k = "type" -> KText(o.t)
+    [] o.k = "list" -> KList([i \in 1..Len(o.pos) |-> KObj(o.pos[i])], [i \in 1..Len(o.neg) |-> KObj(o.neg[i])])
+    [] OTHER -> "mixed"
+
+RECURSIVE KVal(_)
+KVal(v) ==
+  CASE v.k = "any" -> "all"
+    [] v.k = "word" -> KText(v.t)
+    [] v.k = "obj" -> KObj(v.o)
+    [] v.k = "list" -> KList([i \in 1..Len(v.pos) |-> KVal(v.pos[i])], [i \in 1..Len(v.neg) |-> KVal(v.neg[i])])
+    [] OTHER -> "mixed"
+
+RECURSIVE KArg(_)
+KArg(a) ==
+  CASE a.k = "arg" -> LET kn == IF a.hasname THEN KText(a.name) ELSE "all"  kv == KVal(a.val)
+                      IN IF kn = kv THEN kn ELSE "mixed"
+    [] a.k = "list" -> KList([i \in 1..Len(a.pos) |-> KArg(a.pos[i])], [i \in 1..Len(a.neg) |-> KArg(a.neg[i])])
+
+KArgs(A) ==
+  CASE A.k = "noargs" -> "all"
+    [] A.k = "args" ->
+         IF \E i \in 1..Len(A.neg) : KArg(A.neg[i]) = "all" THEN "none"
+         ELSE IF \E i \in 1..Len(A.pos) : KArg(A.pos[i]) = "none" THEN "none"
+         ELSE IF (\A i \in 1..Len(A.pos) : KArg(A.pos[i]) = "all") /\ (\A i \in 1..Len(A.neg) : KArg(A.neg[i]) = "none")
+              THEN "all" ELSE "mixed"
+
+KPat(p) ==
+  LET ks == IF p.form = "bare" THEN <<KText(p.conn), KObj(p.obj)>>
+            ELSE <<KText(p.conn), KObj(p.obj), KText(p.name), KArgs(p.args)>>
+  IN IF \E i \in 1..Len(ks) : ks[i] = "none" THEN "none"
+     ELSE IF \A i \in 1..Len(ks) : ks[i] = "all" THEN "all"
+     ELSE "mixed"
+
+IsStarPat(p) == KPat(p) = "all"
+IsNonePat(p) == KPat(p) = "none"
 
 TopPos(top) == IF top.k = "list" THEN top.pos ELSE <<top>>
 TopNeg(top) == IF top.k = "list" THEN top.neg ELSE <<>>
 IsBang(top) == top.k = "list" /\ Len(top.pos) = 0 /\ Len(top.neg) = 0
 
 Specifics(s) == SelectSeq(s, LAMBDA p : ~IsStarPat(p))
+Live(s)      == SelectSeq(s, LAMBDA p : ~IsNonePat(p))
 HasStar(s)   == \E i \in 1..Len(s) : IsStarPat(s[i])
 
-Collapse(a) == IF a.star /\ Len(a.excl) = 0 THEN FAll ELSE a
+\* no restriction left -> `*`; nothing that could match left -> `!`
+Collapse(a) == IF a.star /\ Len(a.excl) = 0 THEN FAll
+               ELSE IF ~a.star /\ Len(Live(a.alts)) = 0 THEN FNone
+               ELSE a
 
 Refine(cur, new) ==
-  LET pos == TopPos(new)
-      neg == TopNeg(new)
+  LET pos == TopPos(new)             \* alternatives as written (none written: `! x`)
+      neg == Live(TopNeg(new))
   IN
   IF IsBang(new) \/ HasStar(neg) THEN FNone
   ELSE IF cur.c \in {"all", "none"}
@@ -175,8 +235,8 @@ Refine(cur, new) ==
        ELSE IF HasStar(pos)
        THEN Collapse([c |-> "acc", alts |-> <<>>, excl |-> excl2,
                       sup |-> cur.sup \o cur.alts, star |-> TRUE])
-       ELSE [c |-> "acc", alts |-> cur.alts \o Specifics(pos), excl |-> excl2,
-             sup |-> cur.sup, star |-> FALSE]
+       ELSE Collapse([c |-> "acc", alts |-> cur.alts \o Specifics(pos), excl |-> excl2,
+                      sup |-> cur.sup, star |-> FALSE])
 
 AnySem(s, m) == \E i \in 1..Len(s) : PatSem(s[i], m)
 
